@@ -311,3 +311,68 @@ def described_at_solve_time(ctx, games, clause, fields=None):
                     ctx.violation(clause, {"game": gen.desc(g), "prune": prune, "edit": how, "first_final_states": first},
                                   {"fresh_object": [x[:200] for x in want], "edited_object": [x[:200] for x in got]})
                     return
+
+
+def odd_label_invariance(ctx, games, clause, rng, fields=None):
+    """Action names are arbitrary strings: renaming them consistently to strings that contain format / template /
+    quoting characters ({north}, %s, quotes, backslash, newline) changes the strategies only by the renaming and
+    nothing else."""
+    import impl
+    for g in games:
+        g2, m = gen.with_odd_labels(g, rng)
+        for prune in (True, False):
+            a = impl.solve(g, prune, want_nodes=False)
+            b = impl.solve(g2, prune, want_nodes=False)
+            ctx.case({"renaming": {k: v for k, v in m.items()}, "game": gen.desc(g), "prune": prune}, True)
+            if a["outcome"] != "ok":
+                if b["outcome"] != a["outcome"]:
+                    ctx.violation(clause, {"game": gen.desc(g2), "prune": prune, "renaming": m}, {"original": a["outcome"], "renamed": b["outcome"], "msg": b.get("msg")})
+                    return
+                continue
+            if b["outcome"] != "ok":
+                ctx.violation(clause, {"game": gen.desc(g2), "prune": prune, "renaming": m}, {"original": "ok", "renamed": b["outcome"], "msg": b.get("msg")})
+                return
+            ra, rb = a["res"], b["res"]
+            ren = lambda st: [None if x is None else [m.get(y, y) for y in x] for x in st]
+            exp = [ren(ra[0]), ren(ra[1])] + list(ra[2:])
+            idx = fields if fields is not None else range(len(exp))
+            if [repr(exp[k]) for k in idx] != [repr(rb[k]) for k in idx]:
+                bad = [k for k in idx if repr(exp[k]) != repr(rb[k])]
+                ctx.violation(clause, {"game": gen.desc(g2), "prune": prune, "renaming": m},
+                              {"differing_result_fields": bad, "expected": [repr(exp[k])[:200] for k in bad], "got": [repr(rb[k])[:200] for k in bad]})
+                return
+
+
+def round5_passes(ctx, rng, games, prefix, fields=None):
+    """the history / environment / naming passes every solver property gets (DESIGN.md 12.6)"""
+    environment_independence(ctx, games, prefix + "-independent-of-process-environment", fields)
+    described_at_solve_time(ctx, games, prefix + "-of-the-description-at-solve-time", fields)
+    odd_label_invariance(ctx, games, prefix + "-unchanged-by-odd-action-names", rng, fields)
+
+
+def replay_round5(ctx, viol, fields=None):
+    """replay of a violation recorded by round5_passes; returns True when the clause was one of them"""
+    c = viol.get("clause", "")
+    g = viol["input"].get("game")
+    if g is None:
+        return False
+    g["transition_list"] = [[tuple(t) for t in row] for row in g["transition_list"]]
+    if c.endswith("-independent-of-process-environment"):
+        environment_independence(ctx, [g], c, fields)
+        return True
+    if c.endswith("-of-the-description-at-solve-time"):
+        described_at_solve_time(ctx, [g], c, fields)
+        return True
+    if c.endswith("-unchanged-by-odd-action-names"):
+        # the recorded game is the renamed one: it must at least be solved like its un-renamed twin
+        import impl
+        m = viol["input"].get("renaming", {})
+        inv = {v: k for k, v in m.items()}
+        g0 = dict(g, transition_list=[[((inv.get(l, l) if isinstance(l, str) else l), t) for l, t in row] for row in g["transition_list"]])
+        prune = viol["input"].get("prune", True)
+        a, b = impl.solve(g0, prune, want_nodes=False), impl.solve(g, prune, want_nodes=False)
+        ok = a["outcome"] == b["outcome"] and (a["outcome"] != "ok" or [repr(x) for x in a["res"][2:]] == [repr(x) for x in b["res"][2:]])
+        if not ok:
+            ctx.violation(c, viol["input"], {"original": a["outcome"], "renamed": b["outcome"], "msg": b.get("msg")})
+        return True
+    return False
